@@ -356,12 +356,18 @@ func H_SM_history() {
 		case 1:
 			w.deliverAB()
 		case 2:
-			w.recv(i, false, []int{2, 3, 9, 10}[vfShape("rsize", 0, 3)])
+			w.recv(i, false, []int{1, 2, 3, 9}[vfShape("rsize", 0, 3)])
 		case 3:
 			if w.b[i].stream == nil {
 				vfPrune()
 			}
-			w.b[i].stream.BufferReader().ReleasePreviousRead()
+			if vfShape("reuse", 0, 1) == 1 {
+				// long-stream mode: release what was read and keep the last slice for writing;
+				// unread bytes must survive
+				w.b[i].stream.ReleaseReadAndReuse()
+			} else {
+				w.b[i].stream.BufferReader().ReleasePreviousRead()
+			}
 		case 4:
 			w.closeEnd(i, true)
 		case 5:
